@@ -62,6 +62,25 @@ def inputs_from_exact(ex, form="components", matter="Tdown4", omit=()):
     return d
 
 
+DEFAULT_ONE = {"gxx", "gyy", "gzz", "alpha"}
+
+
+def drop_defaults(d):
+    """Remove inputs that equal their documented default everywhere (the
+    notebooks supply only what differs from Minkowski): zero shift / K /
+    off-diagonal components, unit diagonal metric and lapse, zero dt's."""
+    out = {}
+    for k, v in d.items():
+        if k in ("Tdown4", "gammadown3", "Kdown3"):
+            out[k] = v
+            continue
+        ref = 1.0 if k in DEFAULT_ONE else 0.0
+        if np.all(v == ref):
+            continue
+        out[k] = v
+    return out
+
+
 def make_rel(fd, data, Lambda=0.0, vacuum=False, **kw):
     rel = aurel.AurelCore(fd, verbose=False, Lambda=Lambda, vacuum=vacuum,
                           **kw)
@@ -122,6 +141,8 @@ class Setup:
         ex = ref4d.exact(self.metric, t, fd.x, fd.y, fd.z,
                          Lambda=self.Lambda)
         data = inputs_from_exact(ex, self.form, self.matter, omit=omit)
+        if self.case.get("omit_defaults"):
+            data = drop_defaults(data)
         if extra:
             data.update(extra(fd, ex))
         rel = make_rel(fd, data, Lambda=self.Lambda, vacuum=self.vacuum,
